@@ -942,7 +942,7 @@ def reference_inputs(rng, d):
     return {'levels': gt.levels, 'genes': genes, 'qgenes': qgenes, 'encoding': enc}
 
 
-def stage_jobs(sb, src, info, tag, params, pre=None):
+def stage_jobs(sb, src, info, tag, params, pre=None, copy_data_over=False):
     ind = sb / 'in'
     for fn in ('ref.h5ad', 'stats.h5'):
         if not (ind / fn).exists():
@@ -959,7 +959,8 @@ def stage_jobs(sb, src, info, tag, params, pre=None):
     jobs = [
         {'label': f'stats-{tag}', 'stage': 'stats', 'roots': roots, 'pre': pre,
          'args': {'h5ad': str(ind / 'ref.h5ad'), 'levels': info['levels'], 'out': str(sb / 'out' / 'stats_out.h5'),
-                  'rows_at_a_time': params['rows'], 'tmp_dir': tmp, 'n_processors': params['np']}},
+                  'rows_at_a_time': params['rows'], 'tmp_dir': tmp, 'n_processors': params['np'],
+                  'copy_data_over': copy_data_over}},
         {'label': f'refmarkers-{tag}', 'stage': 'refmarkers', 'roots': roots,
          'args': {'stats': str(ind / 'stats.h5'), 'out': str(sb / 'out' / 'refm_out.h5'), 'tmp_dir': tmp,
                   'n_processors': params['np']}},
@@ -998,11 +999,63 @@ def history_stages(ctx, k):
     plant = {'plant': {'dirs': [str(shared / 'tmp'), str(shared / 'out')], 'seed': rng.randrange(10 ** 6)}}
     j0 = stage_jobs(fresh, src, info, 'undisturbed', params)
     j1 = stage_jobs(shared, src, info, 'stale', params, pre=plant)
-    j2 = stage_jobs(shared, src, info, 'again', params)
+    # the third round runs the statistics stage with copy_data_over=True (the reference is copied into a buffer
+    # directory inside the stage's own scratch sub-directory first): same statistics, nothing left behind
+    j2 = stage_jobs(shared, src, info, 'again', params, copy_data_over=True)
+    ctx.dist('stats-stage.copy_data_over', 'False x2, True x1')
     recs = run_batches(ctx, [j0 + j1 + j2], f'stages{k}')[0]
     for i, rec in enumerate(recs):
         hist = ['undisturbed', 'stale-files-planted', 'success-after-success'][i // 3]
         check_run(ctx, rec, hist, None if i < 3 else recs[i % 3]['result'], expect_ok=True)
+
+
+# ------------------------------------------------------------------ an output path that is a dangling symbolic link
+F30 = 'F30-probe-writes-junk-through-dangling-symlink-output'
+
+
+def history_symlink(ctx, k):
+    """The models of C19 speak about resolved paths without symbolic links (FsModel.v header).  One real boundary case
+    is checked on the observation alone: a requested output path (JSON result or log) that is a DANGLING symbolic link
+    into another directory.  run_mapping's probe `if not pth.exists(): open(pth, 'w').write('junk'); pth.unlink()`
+    follows the link when it writes and removes the link itself: a file holding 'junk' is left at the link target --
+    a file created outside the requested output locations (finding F30)."""
+    rng = ctx.rng
+    base = ctx.scratch / f'sl{k}'
+    src = base / 'src'
+    mapping_inputs(rng, src)
+    sb = sandbox(base, 'box')
+    other = sb / 'elsewhere'
+    other.mkdir()
+    which = ['extended_result_path', 'log_path'][k % 2]
+    job = mapping_job('dangling-symlink-output', sb, src, 'sl', n_processors=rng.choice([1, 2]),
+                      chunk_size=rng.choice([2, 3, 4]), seed=rng.randrange(10 ** 6))
+    cfg = job['args']['config']
+    link, target = cfg[which], str(other / 'target_of_link.txt')
+    job['pre'] = {'symlinks': {link: target}}
+    job['roots'] = job['roots'] + [str(other)]
+    rec = run_batches(ctx, [[job]], f'symlink{k}')[0][0]
+    res = rec['res']
+    before, after = res['before'], res['after']
+    ctx.dist('history', 'output-path-is-dangling-symlink:' + which)
+    declared = {cfg[x] for x in ('extended_result_path', 'csv_result_path', 'hdf5_result_path', 'log_path') if cfg.get(x)}
+    stray = sorted(p for p in after if p not in before and p not in declared and not p.startswith(str(sb / 'out') + '/')
+                   and not under_any(p, [str(sb / 'systmp'), str(sb / 'cwd')]))
+    stray += sorted(p for p in after if p.startswith(str(sb / 'out') + '/') and p not in before and p not in declared)
+    ctx.count(('symlink-output', which, bool(res.get('ok')), len(stray)), nontrivial=True)
+    desc = {'history': 'output-path-is-dangling-symlink', 'which': which, 'link': os.path.relpath(link, sb),
+            'link_target': os.path.relpath(target, sb), 'run_ok': res.get('ok'), 'error': res.get('error'),
+            'new_outside_requested_outputs': [os.path.relpath(p, sb) for p in stray]}
+    for p in stray:
+        junk = False
+        try:
+            junk = pathlib.Path(p).read_bytes() == b'junk'
+        except OSError:
+            pass
+        d = dict(desc)
+        d['class'] = F30 if (p == target and junk) else 'file-created-outside-requested-outputs'
+        ctx.violation(f"run_mapping with {which} a dangling symbolic link: {os.path.relpath(p, sb)} was created outside the "
+                      f"requested output locations" + (" (it holds the probe's 'junk')" if junk else ''), d)
+    shutil.rmtree(base, ignore_errors=True)
 
 
 def run(ctx):
@@ -1049,6 +1102,12 @@ def run(ctx):
         'without the directly_assigned flag the stage adds after collecting; a direct call that FAILS is not required to '
         'clean up (the property promises that for mapping runs only)',
         'tempfile uniqueness under concurrency is assumed (the two-run acceptor checks the observed names are distinct)',
+        'an observation `Stat p answer` carries the KIND of the entry only (absent / file / directory / exists): the size, '
+        'times and inode a real stat() also returns (of a stale output, say) are not in the trace alphabet; the mapper does '
+        'not use them, and output digests are compared across histories',
+        'paths are resolved paths without symbolic links (Model/FsModel.v header); the only symbolic-link case run is a '
+        'requested output path that is a dangling link into another directory (history_symlink), checked on the snapshots '
+        'alone (known finding F30)',
         'generated references on which the untraced preparation (statistics, reference markers) itself raises are '
         'regenerated (counted in distribution.reference-preparation); such failures belong to C11/C13/C18',
     ]
@@ -1067,6 +1126,8 @@ def run(ctx):
         shutil.rmtree(ctx.scratch / f's{k}', ignore_errors=True)
     for k in range(ctx.n(2, 10)):
         history_assign(ctx, k)
+    for k in range(ctx.n(1, 2)):
+        history_symlink(ctx, k)
     c19_tracker.run_part(ctx)
 
 
